@@ -8,7 +8,7 @@ task's result is compared with its result when run alone.
 """
 from __future__ import annotations
 
-from mc import core, sched, obs as O
+from mc import core, pristine, sched, obs as O
 
 PID = "C13"
 
@@ -20,10 +20,18 @@ PROGS = {
     "B": ("pb.c", 'int T;\n#line 20 "b.h"\nint y = T * 2;'),
     "C": ("pc.c", 'void f(void){\n#line 30 "c.h"\nT * x; }'),
     "D": ("pd.c", 'typedef char T;\n#line 40 "d.h"\nT t = ;'),
+    # the SAME bare directives ('#line 7', '# 40': no file name, so the file
+    # name of the parse itself stays in force) under different file names, the
+    # same literal spelling and the same identifiers at the same (line, column)
+    "E": ("pe.c", 'typedef int T;\n#line 7\nT\n# 40\nx = 10u;'),
+    "F": ("pf.c", 'int T;\n#line 7\nint y =\n# 40\nT * 10u;'),
+    "G": ("pg.c", 'typedef int T;\n#line 7 "g.h"\nT\n# 40\nx = 10u;'),
     # <= 7-token programs for call granularity / all interleavings
     "a": ("qa.c", 'typedef int T;\n#line 10 "a.h"\nT x;'),
     "b": ("qb.c", 'int T,\n#line 20 "b.h"\ny = T;'),
     "c": ("qc.c", 'int x;\n#line 30 "c.h"\nT * y;'),
+    "e": ("qe.c", 'typedef int T;\n#line 7\nT x;'),
+    "f": ("qf.c", 'int T,\n#line 7\ny = T;'),
     # control programs (no #line: the planted leak is in the initial file name)
     "LA": ("la.c", "typedef int T; T x;"),
     "LB": ("lb.c", "int T; int y = T * 2;"),
@@ -31,7 +39,12 @@ PROGS = {
 GEN_SRC = {
     "deep": "void f(int a){ { { { a++; } } } if (a) { while (a) { a--; } } }",
     "flat": "struct S { int m; } s; int g(void){ return 1; }",
+    # the same source (equal nodes, separate AST objects) printed by two
+    # generators with different settings: the texts differ in parentheses
+    "par0": "int v = (a + b) + (c * d) - (a - (b - c));",
+    "par1": "int v = (a + b) + (c * d) - (a - (b - c));",
 }
+GEN_RP = {"par1": True}
 VIS_SRC = {
     "v1": "int a = b + 1; int c = a * 2;",
     "v2": "int f(int p){ return p - q; }",
@@ -61,25 +74,30 @@ class Scenario:
        kind 'leaky-parse': harness-made interference (positive control)"""
 
     def __init__(self, name, *tasks):
-        from pycparser.c_parser import CParser
-
         self.name = name
         self.tasks = [tuple(t.split(":")) for t in tasks]
         self.ntasks = len(self.tasks)
         self.kinds = [{"parse": "parser", "gen": "generator", "visitor": "visitor",
                        "leaky-parse": "control"}[t[0]] for t in self.tasks]
-        # every task gets its own input object
-        self.asts = []
-        for n, (kind, key, gran) in enumerate(self.tasks):
-            if kind == "gen":
-                self.asts.append(CParser().parse(GEN_SRC[key], key + ".c"))
-            elif kind == "visitor":
-                self.asts.append(CParser().parse(VIS_SRC[key], key + ".c"))
-            else:
-                self.asts.append(None)
+        # every task gets its own input object, built when its job is first
+        # made (so that running one task alone executes nothing else)
+        self.asts = [None] * self.ntasks
+
+    def _ast(self, n):
+        from pycparser.c_parser import CParser
+
+        if self.asts[n] is None:
+            kind, key, gran = self.tasks[n]
+            src = GEN_SRC[key] if kind == "gen" else VIS_SRC[key]
+            self.asts[n] = CParser().parse(src, key + ".c")
+        return self.asts[n]
 
     def jobs(self):
-        return [self._job(n) for n in range(self.ntasks)]
+        return [self.job(n) for n in range(self.ntasks)]
+
+    def job(self, n):
+        pristine.touch("C13 task")
+        return self._job(n)
 
     def _job(self, n):
         from pycparser import c_ast
@@ -88,7 +106,7 @@ class Scenario:
         from pycparser.c_lexer import CLexer
 
         kind, key, gran = self.tasks[n]
-        ast = self.asts[n]
+        ast = self._ast(n) if kind in ("gen", "visitor") else None
         if kind == "parse" and gran == "token":
             fn, text = PROGS[key]
 
@@ -132,8 +150,11 @@ class Scenario:
         elif kind == "gen":
             only = ("visit",) if gran == "visit" else None
 
+            rp = GEN_RP.get(key, False)
+
             def job(point):
-                return sched.with_call_points(lambda: O.visit_obs(CGenerator(), ast), point, only)
+                return sched.with_call_points(
+                    lambda: O.visit_obs(CGenerator(reduce_parentheses=rp), ast), point, only)
 
         elif kind == "visitor":
             if key == "v1":
@@ -199,12 +220,15 @@ def plan(tier):
         (_ref("2 parsers A|C @token", "parse:A:token", "parse:C:token"), bt),
         (_ref("2 parsers B|C @token", "parse:B:token", "parse:C:token"), bt),
         (_ref("2 parsers A|D(fails) @token", "parse:A:token", "parse:D:token"), bt),
+        (_ref("2 parsers E|F (same bare #line / # N) @token", "parse:E:token", "parse:F:token"), bt),
         (_ref("3 parsers A|B|C @token", "parse:A:token", "parse:B:token", "parse:C:token"), bt),
+        (_ref("3 parsers E|F|G (same directives, G names a file) @token", "parse:E:token", "parse:F:token", "parse:G:token"), bt),
         (_ref("3 parsers D|C|A @token", "parse:D:token", "parse:C:token", "parse:A:token"), bt),
         (_ref("parser A | generator deep @token/visit", "parse:A:token", "gen:deep:visit"), bt),
         (_ref("2 generators deep|flat @visit", "gen:deep:visit", "gen:flat:visit"), bt),
+        (_ref("2 generators same source, reduce_parentheses differs @visit", "gen:par0:visit", "gen:par1:visit"), bt),
         (_ref("2 NodeVisitor subclasses @call", "visitor:v1:call", "visitor:v2:call"), bc),
-        (_ref("2 parsers a|b @call", "parse:a:call", "parse:b:call"), bc),
+        (_ref("2 parsers e|f (same bare #line) @call", "parse:e:call", "parse:f:call"), bc),
         (_ref("2 parsers a|c @call", "parse:a:call", "parse:c:call"), bc),
         (_ref("2 generators deep|flat @call", "gen:deep:call", "gen:flat:call"), bc),
         # the smallest pair: ALL interleavings (C(15,6) = 5005)
@@ -213,6 +237,7 @@ def plan(tier):
     if not q:
         # C(18,9) = 48620
         P.append((_ref("2 parsers a|b @token, all interleavings", "parse:a:token", "parse:b:token"), None))
+        P.append((_ref("2 parsers e|f (same bare #line) @token, all interleavings", "parse:e:token", "parse:f:token"), None))
     return P
 
 
@@ -221,8 +246,20 @@ CONTROL = _ref("control: 2 parsers with a harness lexer sharing the file name", 
 
 def run(tier):
     R = core.Run(PID, tier, "model_checking")
-    core.pool()  # fork the worker processes before this process starts threads
+    # order matters: the reserve for pristine processes and the pmap workers
+    # are forked before this process executes pycparser code or starts threads
+    pristine.start_reserve()
+    core.pool()
     samples = []
+    P = plan(tier)
+
+    # every task's solo result comes from its own pristine process (twice)
+    tables, unstable = sched.solo_baseline([(ref, len(ref[2]) - 1) for ref, _ in P] + [(CONTROL, 2)])
+    R.set("solo_baselines_from_pristine_processes", sum(len(t) for t in tables.values()))
+    for ref, t, r1, r2 in unstable:
+        R.fail(f"interference:solo-unstable:{O.obs_sig(r1, r2)}",
+               {"scenario": list(ref), "unstable": True, "task": t},
+               f"{ref[2][0]} task {t} run alone in two pristine processes: {O.obs_detail(r1, r2)}")
 
     if not sched.selfcheck():
         R.fail("harness:schedule-explorer-selfcheck", {"part": "selfcheck"},
@@ -231,6 +268,7 @@ def run(tier):
 
     # positive control: interference planted in harness code must be found
     # with one preemption and must be invisible with none
+    sched.install_solo(CONTROL, tables[CONTROL])
     c0 = sched.explore_subtree(CONTROL, 0, {}, 0)[0]
     c1 = sched.explore_subtree(CONTROL, 1, {}, 0)[0]
     R.set("control", {"schedules_bound0": c0.schedules, "fails_bound0": len(c0.fails),
@@ -244,13 +282,10 @@ def run(tier):
     per = {}
     replay_ok = 0
     max_bound_token = max_bound_call = 0
-    for ref, bound in plan(tier):
-        scn = sched.get_scenario(ref)
+    all_fails = []
+    for ref, bound in P:
+        scn = sched.install_solo(ref, tables[ref])
         sol = sched.solo(scn)
-        for t, r1, r2 in scn._solo_unstable:
-            R.fail(f"interference:{scn.kinds[t]}:sequential:{O.obs_sig(r1, r2)}",
-                   {"scenario": list(ref), "sequential": True, "task": t},
-                   f"{scn.name} task {t} run alone twice (fresh instances, no interleaving): {O.obs_detail(r1, r2)}")
         ok, info = sched.replay_twice(ref)
         if ok:
             replay_ok += 1
@@ -258,9 +293,9 @@ def run(tier):
             R.fail("harness:replay-not-deterministic", {"scenario": list(ref), **info}, scn.name)
         import time
         t0 = time.time()
-        s = sched.explore(ref, bound)
+        s = sched.explore(ref, bound, tables[ref])
         wall = time.time() - t0
-        R.fail_many(s.fails)
+        all_fails += s.fails
         distinct = [len(o) for o in s.outcomes]
         for t, o in enumerate(s.outcomes):
             if len(o) != 1 and not s.fails:
@@ -301,7 +336,12 @@ def run(tier):
         samples.append({"scenario": scn.name, "schedules": s.schedules,
                         "bound": "all" if bound is None else bound})
 
-    nscen = len(plan(tier))
+    # smallest case per signature first; each gets a self-contained
+    # reproduction in a pristine process
+    all_fails.sort(key=lambda f: (f[1]["preemptions"], len(f[1]["schedule"])))
+    R.fail_many(sched.confirm(all_fails, {r: tables[r] for r, _ in P}))
+    pristine.stop_reserve()
+    nscen = len(P)
     R.set("per_scenario", per)
     R.set("scenarios", nscen)
     R.set("states", states)
@@ -334,18 +374,31 @@ def run(tier):
 
 
 def replay(rep):
+    pristine.start_reserve()
+    try:
+        return _replay(rep)
+    finally:
+        pristine.stop_reserve()
+
+
+def _replay(rep):
     c = rep["case"]
-    if "schedule" not in c and not c.get("sequential"):
+    if "schedule" not in c and not c.get("unstable"):
         print("harness-level failure; re-run the check")
         return 1
     ref = (c["scenario"][0], c["scenario"][1], tuple(c["scenario"][2]))
-    scn = sched.get_scenario(ref)
+    pre = [((p[0][0], p[0][1], tuple(p[0][2])), p[1]) for p in c.get("prelude", [])]
+    refs = [ref] + [r for r, _ in pre if r != ref]
+    tables, unstable = sched.solo_baseline([(r, len(r[2]) - 1) for r in refs])
+    if c.get("unstable"):
+        for r, t, r1, r2 in unstable:
+            print(f"{r[2][0]} task {t}: two pristine processes disagree on the solo run: {O.obs_detail(r1, r2)}")
+        return 1 if unstable else 0
+    for r, t in pre:
+        print(f"first, alone: task {t} of {r[2][0]!r}")
+        sched.scheduler().execute([sched.install_solo(r, tables[r]).job(t)])
+    scn = sched.install_solo(ref, tables[ref])
     sol = sched.solo(scn)
-    if c.get("sequential"):
-        print("scenario:", scn.name, "- each task run alone twice on fresh instances")
-        for t, r1, r2 in scn._solo_unstable:
-            print(f"task {t}: second run DIFFERS from the first: {O.obs_detail(r1, r2)}")
-        return 1 if scn._solo_unstable else 0
     dev = {int(i): int(t) for i, t in c["schedule"]}
     trace, results = sched.scheduler().execute(scn.jobs(), dev)
     print("scenario:", scn.name)
@@ -359,6 +412,8 @@ def replay(rep):
     bad = 0
     for t, r in enumerate(results):
         same = r == sol[t][0]
-        print(f"task {t} ({scn.tasks[t]}): {'same as alone' if same else 'DIFFERS: ' + O.obs_detail(sol[t][0], r)}")
+        print(f"task {t} ({scn.tasks[t]}): {'same as alone in a pristine process' if same else 'DIFFERS: ' + O.obs_detail(sol[t][0], r)}")
         bad += not same
+    if not bad and not c.get("self_contained", True):
+        print("not reproduced in a fresh process: the recorded failure depended on what the exploring process had run before")
     return 1 if bad else 0
